@@ -157,7 +157,9 @@ def r20_4(ctx: Ctx) -> None:
     # the surplus parked in SevenZipDecompressor._buf is what exceeded max_length in ONE step
     d = ctx.prog.func("compressor", "SevenZipDecompressor.decompress")
     parks = [n for n in walk(d.node) if isinstance(n, ast.Assign) and norm(n.targets[0]) == "self._buf" and not (isinstance(n.value, ast.Call) and not n.value.args)]
-    ok = all(isinstance(p.value, ast.Call) and p.value.args and isinstance(p.value.args[0], ast.Subscript) and norm(p.value.args[0].value) == "tmp" for p in parks)
+    dec_names = {n.targets[0].id for n in walk(d.node) if isinstance(n, ast.Assign) and isinstance(n.targets[0], ast.Name) and isinstance(n.value, ast.Call)
+                 and attr_tail(n.value) == "_decompress"}
+    ok = all(isinstance(p.value, ast.Call) and p.value.args and isinstance(p.value.args[0], ast.Subscript) and norm(p.value.args[0].value) in dec_names for p in parks)
     ctx.check(ok and bool(parks), "R20.4", d, parks[0] if parks else d.node, "only the surplus of one decode step is parked", "the decoder parks more than the surplus of a single step")
 
 
